@@ -135,6 +135,12 @@ pub fn materialise(raw: &RawNet, metric: bool) -> NetCase {
         };
         vertices.push(((LON0 + cx * spacing) as f32, (LAT0 + cy * spacing) as f32));
     }
+    // one network in seven has two distinct vertices on the same coordinate (stacked junctions,
+    // duplicated nodes of an import): valid input, great-circle distance 0 between them
+    if raw.spacing % 7 == 3 && n >= 3 {
+        let j = 1 + (raw.spacing as usize / 7) % (n - 1);
+        vertices[j] = vertices[0];
+    }
     let mut pairs: Vec<(usize, usize)> = vec![];
     let mut k_idx = 0usize;
     let mut keep = |dflt: bool| -> bool {
